@@ -26,7 +26,7 @@ def run_fleaf(ctx):
 def run_funlink(ctx):
     """Engine C, F-UNLINK: the first-bucket protocol of deletions in _BTree_set (cvc/funlink.py)."""
     fams = ["II", "OO"] if ctx.tier == "quick" else ["II", "OO", "LF", "QQ", "fs"]
-    res = ctx.cvc(fams, ["F-UNLINK"], functions=["_BTree_set"])
+    res = ctx.cvc(fams, ["F-UNLINK"], functions=["_BTree_set", "Bucket_deleteNextBucket"])
     from lib import replay
     replay.replay_funlink(ctx, res)
     return fams
